@@ -53,7 +53,7 @@ func fieldKey(v ssa.Value) string {
 	if n == nil {
 		return ""
 	}
-	return n.Obj().Name() + "." + fv.Name()
+	return n.Obj().Name() + "." + fieldVarName(fv)
 }
 
 type identAnalysis struct {
